@@ -371,10 +371,11 @@ def r02_6(ctx):
 
 @rule("R02.7", "C02", "the conversions an operator applies to its operands change the representation, not the value: widening fills with the SOURCE's sign, a truth value becomes 0 / 1", min_instances=8)
 def r02_7(ctx):
-    from .c03 import r03_1, r03_2
+    from .c03 import r03_1, r03_2, r03_6
 
     r03_1(ctx)
     r03_2(ctx)
+    r03_6(ctx)  # the body of the Promo(...) step every operator relies on
 
 
 def callback_operand_kind_independence(ctx):
